@@ -19,7 +19,7 @@ type RPCase struct {
 	Op     string      `json:"op"`
 	LogGap int         `json:"logGap"`
 	Zero   bool        `json:"zero"`   // Pack: zeroGarbageSlots
-	Small  bool        `json:"small"`  // the smallest ring is one degree below the largest (ring switching)
+	Small  bool        `json:"small"`  // the smallest ring is two degrees (else one) below the largest
 	Hist   []string    `json:"hist"`   // earlier calls on the same evaluator
 	Poison int         `json:"poison"` // scratch buffers of the inner evaluators
 }
@@ -32,7 +32,9 @@ var rpOps = []string{"Expand", "Pack", "Extract", "ExtractNaive", "Repack", "Rep
 var rpInputsIntact = map[string]bool{"Expand": true, "Extract": true, "ExtractNaive": true, "Split": true, "Merge": true}
 
 func genRPCase(t *rapid.T) RPCase {
+	poolMinLogN = 5 // the sub-rings must have degree >= 16
 	s := poolSpec(t, false, &tru, 0, true)
+	poolMinLogN = 4
 	c := RPCase{RLWE: &s, Seed: rapid.Uint64().Draw(t, "seed")}
 	c.Op = rpOps[rapid.IntRange(0, len(rpOps)-1).Draw(t, "op")]
 	c.LogGap = rapid.IntRange(0, s.LogN-1).Draw(t, "logGap")
@@ -75,15 +77,15 @@ func runRP(c RPCase, rec *h.Rec) error {
 
 	h.SeedRand(c.Seed ^ 0x6b657973)
 	sk := rlwe.NewKeyGenerator(p).GenSecretKeyNew()
-	minLogN := p.LogN()
-	if c.Small {
+	minLogN := p.LogN() - 1
+	if c.Small && minLogN > 4 {
 		minLogN--
 	}
 	lq, lp := p.MaxLevelQ(), p.MaxLevelP()
 	evkParams := rlwe.EvaluationKeyParameters{LevelQ: &lq, LevelP: &lp}
 	evk := &rlwe.RingPackingEvaluationKey{}
 	var ski map[int]*rlwe.SecretKey
-	_, pan := protect(func() error {
+	kerr, pan := protect(func() error {
 		var e error
 		if ski, e = evk.GenRingSwitchingKeys(p, sk, minLogN, evkParams); e != nil {
 			return e
@@ -91,11 +93,12 @@ func runRP(c RPCase, rec *h.Rec) error {
 		evk.GenRepackEvaluationKeys(evk.Parameters[minLogN], ski[minLogN], evkParams)
 		evk.GenRepackEvaluationKeys(evk.Parameters[p.LogN()], ski[p.LogN()], evkParams)
 		evk.GenExtractEvaluationKeys(evk.Parameters[minLogN], ski[minLogN], evkParams)
+		evk.GenExtractEvaluationKeys(evk.Parameters[p.LogN()], ski[p.LogN()], evkParams)
 		return nil
 	})
 	if pan != "" || ski == nil {
 		rec.Class("result=reference-rejected")
-		rec.Note("keygen", pan)
+		rec.Class("reference-rejected:keygen:" + trunc(fmt.Sprint(pan, kerr), 100))
 		return nil
 	}
 
@@ -209,6 +212,7 @@ func runRP(c RPCase, rec *h.Rec) error {
 	ref, _, _, rerr, rpan := exec(rlwe.NewRingPackingEvaluator(evk), c.Op, c.Seed)
 	if rpan != "" || rerr != nil {
 		rec.Class("result=reference-rejected")
+		rec.Class("reference-rejected:" + c.Op + ":" + trunc(fmt.Sprint(rpan, rerr), 80))
 		return nil
 	}
 	used := rlwe.NewRingPackingEvaluator(evk)
